@@ -223,3 +223,10 @@ if __name__ == "__main__":
     o, i = build(tests=t, verbose=True)
     print(o)
     print(json.dumps(i, indent=1))
+    if "--setup" in sys.argv:
+        # warm the dependency builds of the derive-grid fixture as well (C12)
+        sys.path.insert(0, os.path.dirname(os.path.abspath(__file__)))
+        import rules_c12
+        fx = rules_c12.build_fixture("quick", int(os.environ.get("VERIF_SEED", "0") or 0))
+        o2, i2 = build(src=fx)
+        print(o2, i2.get("wall_s"))
